@@ -25,6 +25,7 @@ package anyutil
 //@ extern google.golang.org/protobuf/types/dynamicpb.NewMessageType
 //@   pure
 //@   trusted protobuf-go
+//@   requires[descriptor] desc != nil
 //@   ensures result0 != nil
 
 //@ extern google.golang.org/protobuf/reflect/protoreflect.MessageType.New
